@@ -139,3 +139,42 @@ def replay_known_findings(pid, cfg, d, builds):
             report_known(pid, f"{k['what']} [witness {w} still fails]")
         else:
             log(f"[{pid}] known finding '{k.get('region')}' no longer reproduces on its witness {w}")
+
+
+_MUT_RULES = [
+    (r"(?<![\w.])(\d+)(?![\w.])", lambda m, rng: str(rng.choice([0, 1, 2, 7, 1000, 2147483647, int(m.group(1)) + 1]))),
+    (r" \+ ", lambda m, rng: " - "), (r" - ", lambda m, rng: " + "), (r" \* ", lambda m, rng: " + "),
+    (r" < ", lambda m, rng: " <= "), (r" <= ", lambda m, rng: " < "), (r" > ", lambda m, rng: " >= "), (r" >= ", lambda m, rng: " > "),
+    (r" == ", lambda m, rng: " != "), (r" != ", lambda m, rng: " == "),
+    (r"\btrue\b", lambda m, rng: "false"), (r"\bfalse\b", lambda m, rng: "true"),
+    (r" && ", lambda m, rng: " || "), (r" \|\| ", lambda m, rng: " && "),
+]
+
+
+def token_mutants(n, seed):
+    """Behaviour-changing, mostly type-preserving single-token mutants of the repository's sample programs and
+    std (one token of one file changed; the program is the test's wrapper). Mutants the checker rejects simply
+    do not satisfy C03's premise; accepted ones must still never go wrong."""
+    import random
+    rng = random.Random(seed)
+    base = repo_programs()[1:]
+    out = []
+    tries = 0
+    while len(out) < n and tries < n * 20:
+        tries += 1
+        p = rng.choice(base)
+        srcs = dict(p["sources"])
+        # mutate the tested module itself or a std module
+        target = rng.choice([m for m in srcs if m != p["entry"] and (m.startswith("std.") or m in p["sources"][p["entry"]])] or list(srcs))
+        pat, rep = rng.choice(_MUT_RULES)
+        ms = [m for m in re.finditer(pat, srcs[target]) if "//" not in srcs[target][srcs[target].rfind("\n", 0, m.start()) + 1:m.start()]]
+        if not ms:
+            continue
+        m = rng.choice(ms)
+        new = rep(m, rng)
+        if new == m.group(0):
+            continue
+        srcs[target] = srcs[target][:m.start()] + new + srcs[target][m.end():]
+        out.append({"origin": f"mutant:{p['origin']}:{target}:{m.start()}:{m.group(0).strip()}->{new.strip()}",
+                    "entry": p["entry"], "sources": srcs, "with_std": False})
+    return out
